@@ -23,6 +23,10 @@ pub enum Kind {
     Xor(u8),
     Truncate,
     Append(Vec<u8>),
+    /// append n bytes that repeat the bytes `period` positions earlier (NUL where the file is shorter)
+    AppendPeriodic(usize, usize),
+    /// cut the file by n bytes (n small): a tail that may repeat earlier content
+    TruncateTail(usize),
 }
 
 #[derive(Debug, Clone, Serialize, Deserialize, PartialEq)]
@@ -54,7 +58,9 @@ pub fn tamper() -> impl Strategy<Value = Tamper> {
         prop_oneof![
             5 => (1u8..=255).prop_map(Kind::Xor),
             2 => Just(Kind::Truncate),
-            2 => prop_oneof![Just(b" ".to_vec()), Just(b"\n".to_vec()), Just(b"x".to_vec()), Just(b"}".to_vec()), Just(b"\n\n   \n".to_vec())].prop_map(Kind::Append),
+            2 => prop_oneof![Just(b" ".to_vec()), Just(b"\n".to_vec()), Just(b"x".to_vec()), Just(b"}".to_vec()), Just(b"\n\n   \n".to_vec()), Just(vec![0u8]), Just(vec![0u8; 7])].prop_map(Kind::Append),
+            2 => (prop_oneof![Just(512usize), Just(4096), Just(8192), Just(16384), Just(65536)], 1usize..=3).prop_map(|(p, n)| Kind::AppendPeriodic(p, n)),
+            1 => (1usize..=3).prop_map(Kind::TruncateTail),
         ],
         prop_oneof![
             4 => any::<u16>().prop_map(Offset::Frac),
@@ -99,6 +105,20 @@ fn apply(orig: &[u8], t: &Tamper) -> Option<Vec<u8>> {
             let mut v = orig.to_vec();
             v.extend_from_slice(b);
             Some(v)
+        }
+        Kind::AppendPeriodic(period, n) => {
+            let mut v = orig.to_vec();
+            for _ in 0..*n {
+                let b = if v.len() >= *period { v[v.len() - period] } else { 0 };
+                v.push(b);
+            }
+            Some(v)
+        }
+        Kind::TruncateTail(n) => {
+            if *n >= len {
+                return None;
+            }
+            Some(orig[..len - n].to_vec())
         }
     }
 }
@@ -251,6 +271,8 @@ pub fn check(case: &Case, w: usize) -> CheckResult {
                 Kind::Xor(_) => "xor",
                 Kind::Truncate => "truncate",
                 Kind::Append(_) => "append",
+                Kind::AppendPeriodic(..) => "append-periodic",
+                Kind::TruncateTail(_) => "truncate-tail",
             })
             .class(if off < 8192 { "offset<8192" } else if off < 16384 { "offset<16384" } else { "offset>=16384" });
     }
@@ -276,6 +298,15 @@ pub fn exhaustive_cases() -> Vec<Case> {
             });
         }
     }
+    for file in [FileSel::Source, FileSel::Generated, FileSel::Lock] {
+        for k in [Kind::Append(vec![0u8]), Kind::Append(vec![0u8; 5]), Kind::AppendPeriodic(8192, 1), Kind::AppendPeriodic(512, 2), Kind::TruncateTail(1), Kind::Append(b"\n".to_vec())] {
+            all.push(Tamper {
+                file,
+                kind: k,
+                offset: Offset::Last,
+            });
+        }
+    }
     all.chunks(40)
         .map(|c| Case {
             config: config.clone(),
@@ -287,7 +318,7 @@ pub fn exhaustive_cases() -> Vec<Case> {
 pub fn run(ctx: &mut Ctx) {
     ctx.rule = "a valid source configuration (2-6 generated targets, or 60-300 targets so that the generated file spans several 8 KiB buffers) passed through the real `config generate`; \
 first every API is exercised on the untouched triple (all must succeed, run must start its helpers); then single tampers: file in {source, generated, lockfile} x {XOR a non-zero mask into one byte, \
-truncate, append} x offset (first, last, uniformly random, within 3 bytes of 8192/16384/65536); plus every single-byte edit of one small triple. oracle per tamper (2 of 9 APIs, rotating): \
+truncate, append (text, NUL bytes, bytes repeating the content 512/4096/8192/16384/65536 positions earlier), cut 1-3 tail bytes} x offset (first, last, uniformly random, within 3 bytes of 8192/16384/65536); plus every single-byte edit of one small triple. oracle per tamper (2 of 9 APIs, rotating): \
 non-zero exit, error JSON on stderr, no helper started, out dir byte-identical. lockfile edits that leave the parsed checksum intact are not judged. \
 non-trivial = tamper offset >= 8192, or tamper in source/lockfile; distinct by SHA-256"
         .to_string();
